@@ -476,6 +476,18 @@ static std::string settersAccepted(const Circuit &cc) {
   // after the call ended: each setter applied to a copy must succeed and take effect
   int n = cc.nbCells();
   try {
+    {
+      // on the object itself (a copy does not carry the busy state): setters that re-send the current values
+      Circuit &self = const_cast<Circuit &>(cc);
+      bool su = self.hasCellSizeUpdate_, nu = self.hasNetUpdate_;
+      self.setRows(std::vector<Row>(self.rows_));
+      self.setCellIsFixed(std::vector<bool>(self.cellIsFixed_));
+      self.setCellIsObstruction(std::vector<bool>(self.cellIsObstruction_));
+      self.setCellRowPolarity(std::vector<CellRowPolarity>(self.cellRowPolarity_));
+      self.setNets(std::vector<int>(self.netLimits_), std::vector<int>(self.pinCells_), std::vector<int>(self.pinXOffsets_), std::vector<int>(self.pinYOffsets_), std::vector<float>(self.netWeights_));
+      self.hasCellSizeUpdate_ = su;
+      self.hasNetUpdate_ = nu;
+    }
     { Circuit c = cc; int nn = c.nbNets(); c.addNet({0}, {1}, {2}, 2.0f); if (c.nbNets() != nn + 1 || c.pinCells_.back() != 0 || c.pinXOffsets_.back() != 1) return "addNet had no effect"; c.check(); }
     { Circuit c = cc; c.setNets({0, 1}, {0}, {3}, {4}); if (c.nbNets() != 1 || c.pinXOffsets_ != std::vector<int>{3}) return "setNets had no effect"; c.check(); }
     { Circuit c = cc; std::vector<Row> rr = {Row(0, 7, 0, 3, CellOrientation::N)}; c.setRows(rr); if (c.nbRows() != 1 || c.rows_[0].maxX != 7) return "setRows had no effect"; c.check(); }
@@ -536,13 +548,46 @@ static void c10Case(Rng &rng, CaseResult &r) {
   std::string baseErr;
   {
     Circuit c = c0;
+    // at one callback of the run, other circuit objects come into play: a copy taken right there, an unrelated circuit placed
+    // from inside the callback, and a nested placement call on the very circuit that is being placed
+    int sideAt = (int)rng.range(1, 3), sideKind = (int)rng.range(0, 3);
+    std::string sideErr;
     PlacementCallback cb = [&](PlacementStep) {
       ++K;
       std::string e = settersRefused(c);
       if (!e.empty() && busyErr.empty()) busyErr = "callback " + std::to_string(K) + ": " + e;
+      if (K != sideAt || !sideErr.empty()) return;
+      ColoquinteParameters p2(2, 1);
+      p2.global.maxNbSteps = 2;
+      if (sideKind == 0) {
+        // a copy taken while the original is busy is an independent circuit on which no call is running
+        Circuit snap = c;
+        std::string a = settersAccepted(snap);
+        if (!a.empty()) { sideErr = "C10:copy-taken-in-a-callback-is-busy|a copy of the circuit taken inside callback " + std::to_string(K) + " refuses modifications although no call is running on it: " + a; return; }
+        try { snap.legalize(p2); } catch (const std::exception &) {}
+        a = settersAccepted(snap);
+        if (!a.empty()) { sideErr = "C10:copy-taken-in-a-callback-is-busy|after a placement call on the copy: " + a; return; }
+        r.count("copies_taken_in_a_callback");
+      } else if (sideKind == 1) {
+        // another circuit placed from inside the callback: free again as soon as its own call has ended
+        Circuit b = c0;
+        try { if (stage == 0) b.legalize(p2); else b.placeGlobal(p2); } catch (const std::exception &) {}
+        std::string a = settersAccepted(b);
+        if (!a.empty()) { sideErr = "C10:other-circuit-busy-after-its-call-ended|a second circuit placed from inside callback " + std::to_string(K) + " still refuses modifications after its call ended: " + a; return; }
+        std::string e2 = settersRefused(c);
+        if (!e2.empty()) { sideErr = "C10:setter-accepted-during-placement|after placing another circuit from inside callback " + std::to_string(K) + ": " + e2; return; }
+        r.count("other_circuits_placed_in_a_callback");
+      } else if (sideKind == 2) {
+        // a nested placement call on the circuit that is being placed: when it has ended the outer call is still in progress
+        try { c.legalize(p2); } catch (const std::exception &) {}
+        std::string e2 = settersRefused(c);
+        if (!e2.empty()) { sideErr = "C10:setter-accepted-during-placement-after-a-nested-call|after a nested legalize inside callback " + std::to_string(K) + " of the running call: " + e2; return; }
+        r.count("nested_calls_in_a_callback");
+      }
     };
     try { call(c, cb); baseOk = true; } catch (const std::exception &e) { baseErr = e.what(); } catch (...) { r.fail("non-std-exception", "library threw a non-std exception"); }
     if (!busyErr.empty()) r.fail("C10:setter-accepted-during-placement", busyErr);
+    if (!sideErr.empty()) { size_t bar = sideErr.find('|'); r.fail(sideErr.substr(0, bar), sideErr.substr(bar + 1)); }
     std::string e = settersAccepted(c);
     if (!e.empty()) r.fail(baseOk ? "C10:setter-refused-after-return" : "C10:setter-refused-after-library-exception", e + (baseOk ? "" : " (call threw: " + baseErr + ")"));
     if (!baseOk && stage >= 1 && !samePlacement(c0, c) && K == 0) r.fail("C10:failed-legalization-modified-placement", "x/y/orientation changed although legalization threw: " + baseErr + (infeasibleShape.empty() ? "" : " (" + infeasibleShape + ")"));
@@ -628,6 +673,68 @@ static void c10Case(Rng &rng, CaseResult &r) {
   r.sig = std::string(stageName[stage]) + ":K" + std::to_string(std::min(K, 40)) + (baseOk ? ":ok" : ":thr") + (rejectParams ? "R" : "") + (infeasibleShape.empty() ? "" : "S");
 }
 
+// The position setters stay available while a call is in progress. When a callback uses them to move or turn a FIXED cell,
+// the stage must leave that cell where the callback put it: fixed cells are never written by a placement stage.
+static void c03Nudge(Rng &rng, CaseResult &r) {
+  int stage = (int)rng.range(0, 2);
+  GenOpts o = makeProfile(rng, rng.chance(0.5) ? "manyfixed" : "general");
+  o.maxCells = std::min(o.maxCells, 20);
+  o.maxFixed = std::max(o.maxFixed, 3);
+  if (stage == 0) o.minRowWidth4H = true;
+  Circuit c0 = genCircuit(rng, o);
+  std::string pdesc;
+  ColoquinteParameters params = genParams(rng, true, &pdesc);
+  params.global.maxNbSteps = (int)rng.range(1, 8);
+  std::vector<int> fixedCells;
+  for (int i = 0; i < c0.nbCells(); ++i) if (c0.cellIsFixed_[i]) fixedCells.push_back(i);
+  static const char *sn[3] = {"placeGlobal", "legalize", "placeDetailed"};
+  int nudgeAt = (int)rng.range(1, 4);
+  if (r.dumpOnly) { r.sample = sampleJson(c0, "c03.nudge", pdesc, std::string(sn[stage]) + " nudgeAt=" + std::to_string(nudgeAt)); return; }
+  if (fixedCells.empty()) { r.sig = "nofixed"; return; }
+  Circuit c = c0;
+  int ncb = 0, nudges = 0;
+  std::vector<int> expX, expY;
+  std::vector<CellOrientation> expO;
+  std::string cbErr;
+  auto fixedAsExpected = [&](const Circuit &cc) -> std::string {
+    for (int i : fixedCells)
+      if (cc.cellX_[i] != expX[i] || cc.cellY_[i] != expY[i] || cc.cellOrientation_[i] != expO[i])
+        return "fixed cell " + std::to_string(i) + " was left at (" + std::to_string(expX[i]) + "," + std::to_string(expY[i]) + "," + oname(expO[i]) + ") by the callback and is now at (" +
+               std::to_string(cc.cellX_[i]) + "," + std::to_string(cc.cellY_[i]) + "," + oname(cc.cellOrientation_[i]) + ")";
+    return "";
+  };
+  PlacementCallback cb = [&](PlacementStep) {
+    ++ncb;
+    if (nudges > 0 && cbErr.empty()) { std::string e = fixedAsExpected(c); if (!e.empty()) cbErr = "callback " + std::to_string(ncb) + ": " + e; }
+    if (ncb == nudgeAt || (nudges > 0 && rng.chance(0.2))) {
+      std::vector<int> x = c.cellX_, y = c.cellY_;
+      std::vector<CellOrientation> oo = c.cellOrientation_;
+      for (int i : fixedCells) if (rng.chance(0.6)) { x[i] += (int)rng.range(-9, 9); y[i] += (int)rng.range(-9, 9); if (rng.chance(0.3)) oo[i] = UNTURNED4[rng.range(0, 3)]; }
+      int how = (int)rng.range(0, 1);
+      if (how == 0) { c.setCellX(x); c.setCellY(y); c.setCellOrientation(oo); }
+      else { PlacementSolution sol; for (int i = 0; i < c.nbCells(); ++i) sol.emplace_back(x[i], y[i], oo[i]); c.setSolution(sol); }
+      expX = c.cellX_; expY = c.cellY_; expO = c.cellOrientation_;
+      ++nudges;
+    }
+  };
+  bool ok = false;
+  std::string err;
+  try {
+    if (stage == 0) c.placeGlobal(params, cb); else if (stage == 1) c.legalize(params, cb); else c.placeDetailed(params, cb);
+    ok = true;
+  } catch (const std::exception &e) { err = e.what(); }
+  r.count(ok ? "returned" : "threw");
+  r.count("nudges", nudges);
+  if (nudges > 0) {
+    if (!cbErr.empty()) r.fail("C03:fixed-cell-moved-back-by-the-stage", std::string(sn[stage]) + " " + cbErr);
+    std::string e = fixedAsExpected(c);
+    if (!e.empty()) r.fail("C03:fixed-cell-moved-back-by-the-stage", std::string(sn[stage]) + (ok ? " on return: " : " after it threw: ") + e);
+  }
+  r.nontrivial = nudges > 0 && ncb > nudgeAt;
+  r.sig = std::string(sn[stage]) + ":n" + std::to_string(std::min(nudges, 3)) + ":cb" + std::to_string(std::min(ncb, 9)) + (ok ? "r" : "t");
+  if (r.needSample()) r.sample = sampleJson(c0, "c03.nudge", pdesc, std::string(sn[stage]) + " nudgeAt=" + std::to_string(nudgeAt));
+}
+
 // Many cells: tens to hundreds of thousands, with the netlist shapes that stress depth and length rather than values:
 // chains listed in order (every net links cell i to i+1), shuffled chains, hubs, random small nets.
 static void c07ScaleCase(uint64_t idx, Rng &rng, CaseResult &r) {
@@ -703,6 +810,7 @@ int main(int argc, char **argv) {
   for (std::string prof : {"general", "manyfixed", "dense", "obstruction", "crowded", "faraway", "big"})
     add("c03.flow." + prof, [prof](uint64_t, Rng &rng, CaseResult &r) { flowCase(rng, r, prof, O_C03); });
   add("c03.global", [](uint64_t, Rng &rng, CaseResult &r) { c03Global(rng, r); });
+  add("c03.nudge", [](uint64_t, Rng &rng, CaseResult &r) { c03Nudge(rng, r); }, 60);
   for (std::string prof : {"general", "rowhigh", "obstruction", "polarity", "dense", "crowded", "big20", "comb"})
     add("c11.relegalize." + prof, [prof](uint64_t, Rng &rng, CaseResult &r) { flowCase(rng, r, prof, O_C11); });
   add("c11.constructed", [](uint64_t, Rng &rng, CaseResult &r) { c11Constructed(rng, r); });
